@@ -45,7 +45,7 @@ theorem capFirst_idem (s : Txt) (seen done : Bool) :
 def bodyA : List Item := [.simple .a [] false false]
 
 theorem run_bodyA (T : EnglishTables) (f : Nat) (st : St) (x : Int) (h : st.args[st.pos]? = some (.int x)) :
-    runItems T (f + 2) bodyA st = .ok ({ st with pos := st.pos + 1, out := st.out ++ showInt x }, .cont) := by
+    runItems T (f + 2) bodyA st = .ok ({ st with pos := st.pos + 1, out := st.out ++ printInt T x }, .cont) := by
   have hnext : st.next = .ok (.int x, { st with pos := st.pos + 1 }) := by simp [St.next, h]
   simp [bodyA, runItems, runItem, resolveParams, runSimple, natParam, chrParam, hnext, princ, printArg, printAtom,
     padAS, St.emit, bind, Except.bind, pure, Except.pure]
